@@ -35,7 +35,9 @@ LInit ==
 LNext == UNCHANGED lvars
 
 \* the category name of the router uses the text's states (property "name")
-StOf(p) == IF p = "name" THEN st.text ELSE st[p]
+\* ... and so do the router case's arguments, with "empty" standing for a translation of the wrong length
+ArgState(x) == IF x = "empty" THEN "longer" ELSE x
+StOf(p) == IF p = "name" THEN st.text ELSE IF p = "arguments" THEN <<ArgState(st.text[1]), ArgState(st.text[2])>> ELSE st[p]
 tr == [p \in Props |-> [l \in Langs |-> IF l = base THEN "absent"
                                        ELSE IF l = Others(base)[1] THEN StOf(p)[1] ELSE StOf(p)[2]]]
 
@@ -46,13 +48,14 @@ HasPart(p) == IF LangOf(p) = base THEN native[p] ELSE TRUE
 Expected ==
   [text |-> Source(LangOf("text"), base), attachments |-> Source(LangOf("attachments"), base),
    quick_replies |-> Source(LangOf("quick_replies"), base), name |-> Source(LangOf("name"), base),
+   arguments |-> Source(PickArgs(P, base, tr["arguments"]), base),
    locale |-> MsgLang([text |-> HasPart("text"), attachments |-> HasPart("attachments"), quick_replies |-> HasPart("quick_replies")],
                       [text |-> LangOf("text"), attachments |-> LangOf("attachments"), quick_replies |-> LangOf("quick_replies")])]
 
 \* design sanity, checked on the whole lattice
 PrefsOK == /\ P[Len(P)] = base /\ Len(P) <= 3
            /\ (cl # "" /\ InList(cl, allowed) => P[1] = cl)
-ChoiceOK == \A p \in Props : LET l == LangOf(p) IN
+ChoiceOK == \A p \in Props \ {"arguments"} : LET l == LangOf(p) IN
               /\ (l # base => tr[p][l] = "present")
               /\ \A i \in DOMAIN P : (P[i] # base /\ tr[p][P[i]] = "present" /\ \A j \in 1..(i - 1) : P[j] # base /\ tr[p][P[j]] # "present") => l = P[i]
 =============================================================================
